@@ -11,6 +11,9 @@ pub fn generate(kind: &str, r: &mut Rng, i: u64) -> Vec<String> {
         "link-close" => link_close(r, i),
         "link-closecancel" => link_close_cancel(r, i),
         "link-forward" => link_forward(r, i),
+        "link-fwdexact" => link_fwd_exact(r, i),
+        "link-fwdchunks" => link_fwd_chunks(r, i),
+        "link-fwdports" => link_fwd_ports(r, i),
         "hostile" => hostile(r, i),
         "wirepeer" => wirepeer(r, i),
         "fault-idle" => fault_workload(r, 99, None),
@@ -1272,6 +1275,307 @@ fn link_forward(r: &mut Rng, _i: u64) -> Vec<String> {
         l.push("settle".into());
     }
     l.push("settle".into());
+    l.push("dropall".into());
+    l.push("settle".into());
+    l.push("end".into());
+    l
+}
+
+
+/// Common prologue of the forwarder scripts: A sends on p, B forwards p into q, A receives on q.
+fn fwd_prologue(l: &mut Vec<String>) {
+    l.push("start".into());
+    l.push("connect c0 A p".into());
+    l.push("accept a0 B p".into());
+    l.push("settle".into());
+    l.push("connect c1 B q".into());
+    l.push("accept a1 A q".into());
+    l.push("settle".into());
+    l.push("forward f B p q".into());
+    l.push("settle".into());
+}
+
+/// Exact mode for the forwarder (`chmux::forward`, chunk granularity): both wires are stepped (one item at a
+/// time with a settle after each), so the real forwarding loop is a deterministic function of the script and
+/// must emit, frame by frame, what M_forward emits: whole messages, messages above the forwarder's
+/// `max_data_size` (relayed chunk by chunk), chunk streams that are finished, dropped or cancelled mid-way,
+/// port batches, a graceful close or a drop of the destination receiver at any position, upstream end-of-stream.
+fn link_fwd_exact(r: &mut Rng, _i: u64) -> Vec<String> {
+    let mut c = gen_cfg(r);
+    // the forwarding endpoint's event queue is shared by the relayed frames and the credit returns of the
+    // source port: keep it roomy so that no credit return is deferred (not determined by the script)
+    c.sq[1] = 16;
+    let mut l = vec!["mode exact".to_string()];
+    l.extend(cfg_lines(&c));
+    fwd_prologue(&mut l);
+    l.push("release A 0".into());
+    l.push("release B 0".into());
+    // sizes: A -> B is governed by B's receive side; what B relays is governed by A's
+    let (chunk, buf, maxdata) = (c.chunk[1], c.buf[1], c.maxdata[1]);
+    let n = r.range(2, 8);
+    let end_at = r.below(n + 2); // position of the close / drop of the destination receiver (may be never)
+    let end_kind = r.below(3); // 0 close, 1 drop, 2 close then drop
+    let mut recvs = 0;
+    let mut ended = false;
+    let mut reading = true;
+    let mut read = |l: &mut Vec<String>, recvs: &mut u32, times: u64| {
+        for _ in 0..times {
+            *recvs += 1;
+            l.push(format!("recvmsg r{recvs} A q", recvs = *recvs));
+            l.push("settle".into());
+            l.push("flushall".into());
+        }
+    };
+    for i in 0..n {
+        if i == end_at {
+            ended = true;
+            l.push("cancelcalls A q rx".into());
+            l.push("settle".into());
+            if end_kind != 1 {
+                l.push("close clq A q".into());
+                l.push("settle".into());
+                l.push("flushall".into());
+            }
+            if end_kind != 0 {
+                l.push("drop A q rx".into());
+                l.push("settle".into());
+                l.push("flushall".into());
+                reading = false;
+            }
+        }
+        let id = format!("s{i}");
+        match r.below(10) {
+            0..=3 => {
+                // whole message, often above the forwarder's max_data_size
+                let len = match r.below(3) {
+                    0 => (maxdata + r.range(1, 12)) as usize,
+                    _ => msg_len(r, chunk, buf, maxdata).min(60),
+                };
+                l.push(format!("send {id} A p {}", payload(r, len)));
+            }
+            4..=7 => {
+                let parts = r.range(1, 4);
+                let ps: Vec<String> = (0..parts)
+                    .map(|_| {
+                        let n = match r.below(5) {
+                            0 => 0,
+                            1 => (maxdata + 1) as usize,
+                            _ => msg_len(r, chunk, buf, maxdata).min(30),
+                        };
+                        payload(r, n)
+                    })
+                    .collect();
+                let end = *r.pick(&["finish", "final", "drop", "drop", "finish"]);
+                l.push(format!("chunks {id} A p {} end={end}", ps.join(",")));
+            }
+            _ => {
+                l.push(format!("pconnect {id} A p n={} wait=1", r.range(1, 3)));
+            }
+        }
+        l.push("settle".into());
+        l.push("flushall".into());
+        // the destination reads (or not: then the forwarder backs up and the origin's call stays pending)
+        if reading && r.chance(2, 3) {
+            read(&mut l, &mut recvs, r.range(1, 3));
+        }
+        // one call per handle: a call still pending is dropped (a chunk stream is then cancelled mid-way)
+        l.push(format!("cancel {id}"));
+        l.push("settle".into());
+        l.push("flushall".into());
+    }
+    let _ = ended;
+    // the origin goes away; the destination drains
+    l.push("drop A p tx".into());
+    l.push("settle".into());
+    l.push("flushall".into());
+    if reading {
+        read(&mut l, &mut recvs, n + 5);
+    }
+    l.push("settle".into());
+    l.push("release A inf".into());
+    l.push("release B inf".into());
+    l.push("dropall".into());
+    l.push("settle".into());
+    l.push("end".into());
+    l
+}
+
+
+/// Monitor mode for the forwarder at chunk granularity: messages above the forwarder's `max_data_size`
+/// (`Received::Chunks` -> `ChunkSender`), chunk streams that are finished, dropped, or cancelled while the
+/// forwarder is in its chunk loop (with single-poll scheduling: between any two polls), the destination reading
+/// concurrently or lagging behind, a graceful close or a drop of the destination receiver at any position.
+/// Only the predicates on the real frames and results apply.
+fn link_fwd_chunks(r: &mut Rng, _i: u64) -> Vec<String> {
+    let c = gen_cfg(r);
+    let mut l = vec!["mode monitor".to_string()];
+    let fine = r.bool();
+    if fine {
+        l.push("fine".into());
+    }
+    l.extend(cfg_lines(&c));
+    fwd_prologue(&mut l);
+    let (chunk, buf, maxdata) = (c.chunk[1], c.buf[1], c.maxdata[1]);
+    let n = r.range(3, 10);
+    let end_at = r.below(n + 3);
+    let end_kind = r.below(3);
+    let mut recvs = 0;
+    let mut reading = true;
+    for i in 0..n {
+        if i == end_at {
+            if recvs > 0 {
+                l.push("cancelcalls A q rx".into());
+                l.push("settle".into());
+            }
+            if end_kind != 1 {
+                l.push("close clq A q".into());
+                if r.bool() {
+                    l.push("settle".into());
+                }
+            }
+            if end_kind != 0 {
+                l.push("drop A q rx".into());
+                l.push("settle".into());
+                reading = false;
+            }
+        }
+        let id = format!("s{i}");
+        if r.chance(2, 3) {
+            let parts = r.range(1, 4);
+            let ps: Vec<String> = (0..parts)
+                .map(|_| {
+                    let n = match r.below(6) {
+                        0 => 0,
+                        1 | 2 => (maxdata + r.range(0, 9)) as usize,
+                        _ => msg_len(r, chunk, buf, maxdata).min(40),
+                    };
+                    payload(r, n)
+                })
+                .collect();
+            let end = *r.pick(&["finish", "final", "drop", "finish"]);
+            l.push(format!("chunks {id} A p {} end={end}", ps.join(",")));
+        } else {
+            let len = match r.below(3) {
+                0 => msg_len(r, chunk, buf, maxdata).min(40),
+                _ => (maxdata + r.range(1, 2 * maxdata + 2)) as usize,
+            };
+            l.push(format!("send {id} A p {}", payload(r, len)));
+        }
+        // the destination reads concurrently, later, or not at all
+        let mode = r.below(4);
+        if reading && mode == 0 {
+            recvs += 1;
+            l.push(format!("recvmsg r{recvs} A q"));
+        }
+        if fine && r.bool() {
+            l.push(format!("yield {}", r.range(1, 60)));
+        } else {
+            l.push("settle".into());
+        }
+        if reading && mode == 1 {
+            for _ in 0..r.range(1, 3) {
+                recvs += 1;
+                l.push(format!("recvmsg r{recvs} A q"));
+                l.push("settle".into());
+            }
+        }
+        // a call that is still pending is dropped wherever it is: upstream chunk streams end mid-way
+        l.push(format!("cancel {id}"));
+        l.push("settle".into());
+    }
+    l.push("drop A p tx".into());
+    l.push("settle".into());
+    if reading {
+        for _ in 0..(n + 5) {
+            recvs += 1;
+            l.push(format!("recvmsg r{recvs} A q"));
+            l.push("settle".into());
+        }
+    }
+    l.push("settle".into());
+    l.push("dropall".into());
+    l.push("settle".into());
+    l.push("end".into());
+    l
+}
+
+/// Forwarding of port requests (`Received::Requests`): the origin sends batches of 2..4 port requests (custom
+/// ids in most runs) on p, the forwarder relays them on q with fresh ports and the same ids, the destination
+/// accepts some and rejects others (in any order); then a distinct label is sent into every half and must come
+/// out of the half with the same id, and every origin connect must resolve as the request with its id was
+/// answered.  Data messages travel between the batches.
+fn link_fwd_ports(r: &mut Rng, _i: u64) -> Vec<String> {
+    let c = gen_cfg(r);
+    let mut l = vec!["mode monitor".to_string()];
+    l.extend(cfg_lines(&c));
+    fwd_prologue(&mut l);
+    let (chunk, buf, maxdata) = (c.chunk[1], c.buf[1], c.maxdata[1]);
+    let rounds = r.range(1, 3);
+    let mut recvs = 0;
+    for rd in 0..rounds {
+        if r.bool() {
+            let len = msg_len(r, chunk, buf, maxdata).min(maxdata as usize).min(20);
+            l.push(format!("send d{rd} A p {}", payload(r, len)));
+            l.push("settle".into());
+            recvs += 1;
+            l.push(format!("recvmsg rd{recvs} A q"));
+            l.push("settle".into());
+            l.push(format!("cancel d{rd}"));
+            l.push("settle".into());
+        }
+        let n = r.range(2, 4);
+        let custom = r.chance(3, 4);
+        l.push(format!("pconnect pc{rd} A p n={n} wait=1{}", if custom { " ids=custom" } else { "" }));
+        l.push("settle".into());
+        l.push(format!("recvmsg rq{rd} A q"));
+        l.push("settle".into());
+        // answer the requests in a random order: accept / reject / reject(no ports)
+        let mut order: Vec<u64> = (0..n).collect();
+        for i in (1..order.len()).rev() {
+            let j = r.below(i as u64 + 1) as usize;
+            order.swap(i, j);
+        }
+        let mut accepted = Vec::new();
+        for &j in &order {
+            match r.below(4) {
+                0 => l.push(format!("reqreject rj{rd}x{j} A rq{rd}.0.{j} 0")),
+                1 => l.push(format!("reqreject rj{rd}x{j} A rq{rd}.0.{j} 1")),
+                _ => {
+                    l.push(format!("reqaccept ra{rd}x{j} A rq{rd}.0.{j} n{rd}x{j}"));
+                    accepted.push(j);
+                }
+            }
+            if r.bool() {
+                l.push("settle".into());
+            }
+        }
+        l.push("settle".into());
+        l.push("settle".into());
+        // labels through every half, both directions (a half whose request was rejected does not exist:
+        // the operation reports `no-such-handle`)
+        for i in 0..n {
+            l.push(format!("send x{rd}x{i} A pc{rd}.{i} a{rd}{i:02x}01"));
+        }
+        for &j in &accepted {
+            l.push(format!("send y{rd}x{j} A n{rd}x{j} b{rd}{j:02x}02"));
+        }
+        l.push("settle".into());
+        for &j in &accepted {
+            l.push(format!("recv v{rd}x{j} A n{rd}x{j}"));
+        }
+        for i in 0..n {
+            l.push(format!("recv w{rd}x{i} A pc{rd}.{i}"));
+        }
+        l.push("settle".into());
+        l.push("settle".into());
+    }
+    l.push("drop A p tx".into());
+    l.push("settle".into());
+    for _ in 0..3 {
+        recvs += 1;
+        l.push(format!("recvmsg rz{recvs} A q"));
+        l.push("settle".into());
+    }
     l.push("dropall".into());
     l.push("settle".into());
     l.push("end".into());
